@@ -306,8 +306,34 @@ def form_via_request(iface, body):
     return run_coro(prog())
 
 
+def noarg_family(r):
+    """Mappings built without an argument: each has its own (empty) pairs; what one of them is given does not show in another."""
+    from baize.datastructures import FormData, MultiMapping, QueryParams, MutableMultiMapping, Headers, MutableHeaders
+    for first_op in (("append", "a", "1"), ("set", "a", "1"), ("setdefault", "a", "1"), ("setlist", "a", ("1", "2")), ("update_pairs", (("a", "1"), ("a", "2"))), ("update_kw", (("b", "2"),))):
+        for cls in (MutableMultiMapping, MutableHeaders):
+            r.count("evaluations")
+            r.count("distinct_nontrivial")
+            w = {"noarg": cls.__name__, "op": list(map(str, first_op))}
+            try:
+                m1 = cls()
+                apply_impl(m1, first_op)
+                others = [cls(), MutableMultiMapping(), MultiMapping(), QueryParams(), FormData(), Headers(), MutableHeaders(), QueryParams(""), MutableMultiMapping([]), MultiMapping(None)]
+                bad = [type(o).__name__ for o in others if list(o.multi_items() if hasattr(o, "multi_items") else o.items()) or len(o) or list(o.keys())]
+            except Exception as e:  # noqa
+                r.violation(f"noarg:exception:{type(e).__name__}", w, f"{cls.__name__}() then {first_op}: {e!r:.100}")
+                continue
+            if bad:
+                r.violation("noarg:shared-pairs", w, f"after {cls.__name__}() received {first_op}, freshly built empty mappings are not empty: {bad}")
+            m2 = cls()
+            apply_impl(m2, ("append", "z", "9"))
+            if [p for p in (m1.multi_items() if hasattr(m1, "multi_items") else m1.items()) if p[0] == "z"]:
+                r.violation("noarg:shared-pairs", w, f"a pair appended to a second {cls.__name__}() shows up in the first one")
+    r.sample({"noarg": "MutableMultiMapping() / MutableHeaders() without arguments"})
+
+
 def shards(tier, seed):
     out = [("bfs", i) for i in range(len(INITS))]
+    out.append(("noarg",))
     out += [("query", i) for i in range(len(QA))]
     return out
 
@@ -317,6 +343,9 @@ QA = ["a", "a b", "&", "=", "%", "+", "é", "", "%41", "25%20off"]
 
 def run_shard(desc, tier):
     r = R()
+    if desc[0] == "noarg":
+        noarg_family(r)
+        return r
     if desc[0] == "bfs":
         init = INITS[desc[1]]
         depth = DEPTH[tier]
@@ -400,6 +429,9 @@ def finish(merged, tier):
 
 def replay(w):
     r = R()
+    if "noarg" in w:
+        noarg_family(r)
+        return bool(r.viol), {"violations": sorted(r.viol)}
     if "history" in w:
         init = tuple(tuple(p) for p in w["init"])
         hist = tuple(tuple(tuple(x) if isinstance(x, list) else x for x in o) for o in w["history"])
